@@ -203,10 +203,16 @@ func DistMatrix(al align.Alignment, weights []float64, model DistModel, range1Mi
 				if sp.i == sp.j {
 					outmatrix[sp.i][sp.i] = 0
 				} else {
-					if outmatrix[sp.i][sp.j], err = model.Distance(sp.seq1, sp.seq2, sp.weights); err != nil {
+					// local error: a successful evaluation must not clear the error recorded by another worker
+					d, e := model.Distance(sp.seq1, sp.seq2, sp.weights)
+					if e != nil {
+						mux.Lock()
+						err = e
+						mux.Unlock()
 						return
 					}
-					outmatrix[sp.j][sp.i] = outmatrix[sp.i][sp.j]
+					outmatrix[sp.i][sp.j] = d
+					outmatrix[sp.j][sp.i] = d
 					mux.Lock()
 					if outmatrix[sp.i][sp.j] < 0 || outmatrix[sp.i][sp.j] == math.Inf(1) || outmatrix[sp.i][sp.j] > NT_DIST_OVER {
 						uncompute = append(uncompute, seqpairdist{sp.i, sp.j, nil, nil, nil, nil})
